@@ -9,6 +9,7 @@ from ..engine import finite, flow
 from ..engine.mutate import Mutant, Variant, in_function, replace_once
 from ..engine.runner import Rule
 from ..engine.source import AnalysisError
+from . import shared
 from .common import callee_name, calls_in
 
 EXPLANATION = (
@@ -144,6 +145,12 @@ def rule_flag_guards(ctx):
     ctx.check("threshold = workflow.need_threshold.value" in ast.unparse(ap.node), ap.fq, "threshold is workflow.need_threshold", "another threshold", "need_threshold")
 
 
+def rule_invalid_target_verdict(ctx):
+    """R-C19-5: the 'invalid target' verdict (FAILED bit) is taken on the states of the resumed database *after* the
+    startup rescans."""
+    shared.check_targets_reconciled_after_resume(ctx, "a valid target is reported as invalid (exit status FAILED, nothing built) because plan.py, edited since the last run, was not yet marked pending when the target was examined")
+
+
 def rule_partition(ctx):
     """R-C19-3."""
     t = ctx.cat.tables.get("pend_blocker")
@@ -241,6 +248,7 @@ RULES = [
     Rule("R-C19-2", "flag guards", rule_flag_guards, min_instances=10),
     Rule("R-C19-3", "partition structure of the pending report", rule_partition, min_instances=22),
     Rule("R-C19-4", "scratch tables", rule_scratch, min_instances=3),
+    Rule("R-C19-5", "invalid-target verdict is taken after the startup rescans", rule_invalid_target_verdict, min_instances=1),
 ]
 
 def _resource_arm_drop(s):
